@@ -34,6 +34,16 @@ pub struct Fetch {
     size: u32,
 }
 
+/// A request the handler REFUSES with a status whose message is `size` bytes (`'e'` each): an error answer that needs several
+/// flights, so that a fault can strike between the response head (400) and the end of the status.
+#[repr(C)]
+#[derive(Serialize, Deserialize, Archive, PartialEq, Debug)]
+#[archive(check_bytes)]
+pub struct Refuse {
+    id: u64,
+    size: u32,
+}
+
 /// A long poll: the handler answers once the gate has been opened (by an `Open` request).
 #[repr(C)]
 #[derive(Serialize, Deserialize, Archive, PartialEq, Debug)]
@@ -68,6 +78,7 @@ impl RpcService for Svc {
     fn register_handlers(registry: &mut ServiceRegistry<Self>) {
         registry.add_handler::<Ask>();
         registry.add_handler::<Fetch>();
+        registry.add_handler::<Refuse>();
         registry.add_handler::<Wait>();
         registry.add_handler::<Open>();
     }
@@ -97,6 +108,18 @@ impl Handler<Fetch> for Svc {
         self.log.lock().unwrap().push(format!("B:{}:{}", id, self.epoch.elapsed().as_millis()));
         self.log.lock().unwrap().push(format!("E:{}:{}", id, self.epoch.elapsed().as_millis()));
         Ok(vec![id as u8; size as usize])
+    }
+}
+
+#[datacake_rpc::async_trait]
+impl Handler<Refuse> for Svc {
+    type Reply = u64;
+
+    async fn on_message(&self, msg: Request<Refuse>) -> Result<Self::Reply, Status> {
+        let (id, size): (u64, u32) = (msg.id.into(), msg.size.into());
+        self.log.lock().unwrap().push(format!("B:{}:{}", id, self.epoch.elapsed().as_millis()));
+        self.log.lock().unwrap().push(format!("E:{}:{}", id, self.epoch.elapsed().as_millis()));
+        Err(Status::internal("e".repeat(size as usize)))
     }
 }
 
@@ -208,7 +231,8 @@ fn runrv(t: &[&str]) -> String {
     format!("trace {} timeout={} {}", status, timeout_ms, if events.is_empty() { "-".to_string() } else { events.join(" ") })
 }
 
-/// runbig <timeout_ms> <reply size> <fault H|P|-> <fault at ms after the request was sent>
+/// runbig <timeout_ms> <reply size> <fault H|P|-> <fault at ms after the request was sent> [err]
+/// (`err`: the handler refuses the request with a status of that size instead of answering with a reply of that size)
 /// One client, link latency pinned to 10 ms: a small request sets the connection up, then ONE request with a large reply is
 /// sent and the fault strikes `at` ms later (request arrives at +10, response head and first flight at +20).  A call that has
 /// not returned 30 simulated seconds later is recorded as `D:<id>:other:<t>`.
@@ -217,6 +241,7 @@ fn runbig(t: &[&str]) -> String {
     let size: u32 = t[2].parse().unwrap();
     let fault = t[3].chars().next().unwrap();
     let fault_at: u64 = t[4].parse().unwrap();
+    let refuse = t.get(5) == Some(&"err");
     let log: Log = Arc::new(Mutex::new(Vec::new()));
     let mut sim = Builder::new()
         .simulation_duration(Duration::from_secs(120))
@@ -251,6 +276,24 @@ fn runbig(t: &[&str]) -> String {
         let l2 = clog.clone();
         let task = tokio::spawn(async move {
             l2.lock().unwrap().push(format!("S:{}:{}", id, start.elapsed().as_millis()));
+            if refuse {
+                // the handler's answer is an error status of `size` bytes: it counts as the reply of this request iff it arrives
+                // with the handler's code and message
+                let res = tokio::time::timeout(Duration::from_secs(30), c2.send(&Refuse { id, size })).await;
+                let out = match res {
+                    Err(_) => "other".to_string(),
+                    Ok(Ok(_)) => "invalid".to_string(),
+                    Ok(Err(st)) => match st.code {
+                        ErrorCode::ConnectionError => "conn".to_string(),
+                        ErrorCode::Timeout => "timeout".to_string(),
+                        ErrorCode::InternalError if st.message.len() == size as usize && st.message.bytes().all(|b| b == b'e') => format!("r{}", id * 7 + 3),
+                        ErrorCode::InvalidPayload => "invalid".to_string(),
+                        _ => "other".to_string(),
+                    },
+                };
+                l2.lock().unwrap().push(format!("D:{}:{}:{}", id, out, start.elapsed().as_millis()));
+                return;
+            }
             let res = tokio::time::timeout(Duration::from_secs(30), c2.send(&Fetch { id, size })).await;
             let out = match res {
                 Err(_) => "other".to_string(),          // still pending: neither a reply nor an error
